@@ -141,6 +141,11 @@ type sweeper struct {
 	cases     []gal.Case
 	pkTable   map[string]int // package list (joined) -> index of its Definition
 	pkLists   [][]string
+	// accepted mutants that end with no signed byte string, beyond the first few per (base, kind)
+	unsignedSeen  map[string]int
+	unsignedBatch map[string]int
+	unsignedPk    map[string]string
+	unsignedOrder []string
 }
 
 func (s *sweeper) render(ps []piece) []byte {
@@ -225,6 +230,20 @@ func (s *sweeper) try(bi int, kind string, pos int, ps []piece) {
 			}
 		}
 	}
+	if match == nil {
+		// accepted although no signed byte string is a suffix: a violation. The first few per (base, kind) are cases with all
+		// their bytes; the rest are batched (an implementation that accepts everything would otherwise produce gigabytes of cases)
+		k := base.label + "|" + kc
+		s.unsignedSeen[k]++
+		if s.unsignedSeen[k] > 8 {
+			if _, ok := s.unsignedBatch[k]; !ok {
+				s.unsignedOrder = append(s.unsignedOrder, k)
+			}
+			s.unsignedBatch[k]++
+			s.unsignedPk[k] = s.pkName(got)
+			return
+		}
+	}
 	suffix := dropPrefix(ps, cut)
 	if !bytes.Equal(s.render(suffix), mutant[cut:]) {
 		panic("c04 sweep: the piece description does not render to the mutant")
@@ -257,7 +276,8 @@ func (s *sweeper) report(tag string, base *signedArchive, kind string, pos int, 
 
 func sweepStage(dir string, seed uint64, tier string) error {
 	w := &world{keys: map[string]*synthrepo.Key{}}
-	sw := &sweeper{viol: map[string]int{}, reported: map[string]bool{}, byKind: map[string][2]int{}, rejected: map[string]int{}, pkTable: map[string]int{}}
+	sw := &sweeper{viol: map[string]int{}, reported: map[string]bool{}, byKind: map[string][2]int{}, rejected: map[string]int{}, pkTable: map[string]int{},
+		unsignedSeen: map[string]int{}, unsignedBatch: map[string]int{}, unsignedPk: map[string]string{}}
 	short := "C:Q1AAAAAAAAAAAAAAAAAAAAAAAAAAA=\nP:a\nV:1.0-r0\n\nC:Q1AAAAAAAAAAAAAAAAAAAAAAAAAAA=\nP:b\nV:2.0-r1\nD:a\n\n"
 	other := "C:Q1AAAAAAAAAAAAAAAAAAAAAAAAAAA=\nP:evil\nV:6.6-r6\n\n"
 	long := fixedText(12)
@@ -423,6 +443,13 @@ func sweepStage(dir string, seed uint64, tier string) error {
 			Term:  fmt.Sprintf("{| sw_suffix := []; sw_ending := \"\"%%string; sw_count := %s; sw_verdict := None |}", gal.N(uint64(sw.rejected[k]))),
 			Class: "rejected/" + parts[1], Key: k,
 			Desc: map[string]any{"base": parts[0], "mutation": parts[1], "rejected_mutants": sw.rejected[k]}})
+	}
+	for _, k := range sw.unsignedOrder {
+		parts := strings.SplitN(k, "|", 2)
+		sw.cases = append(sw.cases, gal.Case{
+			Term:  fmt.Sprintf("{| sw_suffix := []; sw_ending := \"\"%%string; sw_count := %s; sw_verdict := Some %s |}", gal.N(uint64(sw.unsignedBatch[k])), sw.unsignedPk[k]),
+			Class: "accepted-unsigned-batch/" + parts[1], Key: "unsigned|" + k,
+			Desc: map[string]any{"base": parts[0], "mutation": parts[1], "further_accepted_mutants_ending_with_no_signed_byte_string": sw.unsignedBatch[k]}})
 	}
 	// per-file preamble: the base archives once, the signed byte strings as slices of them, the package lists by name
 	var pre strings.Builder
